@@ -116,7 +116,7 @@ def _lit_tree(t):
 
 def unlit_rule(lr):
     def fix_parts(ps):
-        return [tuple(p) if isinstance(p, list) else _fix_part(p) for p in ps]
+        return [tuple(p) if isinstance(p, (list, tuple)) else _fix_part(p) for p in ps]
 
     def _fix_arg(x):
         if x is None:
